@@ -17,8 +17,8 @@ every index `≥ T.length` stands for `E`).
 * `Post T E k R` : the postcondition "window is `T.drop k'` for some `k' ≥ k`, `Inv` holds, result
   satisfies `R`".
 -/
-namespace Pory.Parser
-open Pory
+namespace Pory.ErrLoc
+open Pory Pory.Parser
 
 /-! ### located errors -/
 
@@ -304,7 +304,7 @@ theorem tri_peekTokenIsAutoVar (env : Env) (s : PState) (Q : Bool → PState →
       Q (if (s.toks.getD 1 s.eof).type != .IDENT then false
          else (env.autoVars.lookup (s.toks.getD 1 s.eof).lit).isSome) s := by
   unfold peekTokenIsAutoVar
-  simp only [tri_bind, tri_peek, tri_pure]
+  simp only [tri_bind, tri_peek]
   split <;> simp only [tri_pure]
 
 theorem tri_addTextSt (t : Text) (s : PState) (Q : PUnit → PState → Prop) :
@@ -419,4 +419,4 @@ macro_rules
       | (first $[| (with_reducible (apply $ts))]*)
       | split))
 
-end Pory.Parser
+end Pory.ErrLoc
